@@ -72,12 +72,17 @@ func sortStrings(s []string) {
 func tieDump(r *Rng) string {
 	var sb strings.Builder
 	n := 4 + r.Intn(8)
+	dup := r.Chance(1, 3) // ids that repeat (two dumps pasted together) or decrease
 	for i := 1; i <= n; i++ {
 		arg := fmt.Sprintf("0x%x", 1+r.Intn(3))
 		if r.Chance(1, 4) {
 			arg += "?"
 		}
-		fmt.Fprintf(&sb, "goroutine %d [select]:\nmain.worker(%s, 0xc0000%d0000)\n\t/home/u/app/main.go:%d +0x1\n\n", i*3, arg, r.Intn(4), 20+r.Intn(2))
+		id := i * 3
+		if dup {
+			id = 1 + r.Intn(3)
+		}
+		fmt.Fprintf(&sb, "goroutine %d [select]:\nmain.worker(%s, 0xc0000%d0000)\n\t/home/u/app/main.go:%d +0x1\n\n", id, arg, r.Intn(4), 20+r.Intn(2))
 	}
 	return sb.String()
 }
@@ -175,6 +180,7 @@ func runC06(prop string, res *Result, pool *DrvPool, r *Rng) {
 		}
 		os.RemoveAll(dir)
 	}
+	runHistory(res, r.Fork())
 	// across processes
 	self, _ := os.Executable()
 	var digests []string
@@ -213,4 +219,49 @@ func diffAround(a, b string) string {
 		return len(s)
 	}
 	return fmt.Sprintf("at byte %d: %q vs %q", i, a[lo:hi(a)], b[lo:hi(b)])
+}
+
+// runHistory: the result of a call must not depend on the calls made before
+// it. A set of calls (dumps followed by more text, readers that deliver their
+// last bytes together with the error, readers that fail, cuts) is evaluated in
+// one order, then again in shuffled orders; every call must give what it gave
+// the first time.
+func runHistory(res *Result, r *Rng) {
+	for round := 0; round < countN(res.Tier, 12, 200); round++ {
+		var ops []*ScanOp
+		for k := 4 + r.Intn(6); k > 0; k-- {
+			var in string
+			switch r.Intn(4) {
+			case 0:
+				in = tieDump(r) + "trailing line 1\ntrailing line 2\n"
+			case 1:
+				in = "log line\n" + GenCfg(r).Dump(genPtrDump(r)) + "after\n"
+			case 2:
+				rs := GenRace(r)
+				in = rs.Print(false) + "after the report\n"
+			default:
+				in = "only text\nno dump here\n"
+			}
+			if r.Chance(1, 4) && len(in) > 2 {
+				in = in[:1+r.Intn(len(in)-1)]
+			}
+			op := &ScanOp{Op: "scan", Data: hb(in), Sched: genSched(r, len(in)), Final: []string{"eof", "eof", "reader:1", "reader:2"}[r.Intn(4)], WithData: r.Bool(), Names: r.Bool()}
+			ops = append(ops, op)
+		}
+		ref := make([]ScanRes, len(ops))
+		for i, op := range ops {
+			ref[i] = implScan(op)
+		}
+		for pass := 0; pass < 3; pass++ {
+			perm := r.Perm(len(ops))
+			for _, i := range perm {
+				got := implScan(ops[i])
+				res.Count("history-calls")
+				if d := sameScan(&ref[i], &got); d != "" {
+					res.Violation(Finding{Stream: "history", What: "the same bytes, read schedule and options gave a different result after a different sequence of earlier ScanSnapshot calls in the same process: " + d, Op: map[string]interface{}{"calls": ops, "order": perm, "differs_at": i}})
+					return
+				}
+			}
+		}
+	}
 }
